@@ -114,7 +114,8 @@ Section Readback.
     - (* body *) pose proof (get_body_is_list r Hl) as A. pose proof (get_body_content r) as B.
       destruct (get_body r). cbn [fst] in *. split; [exact A|congruence].
     - (* text *) pose proof (get_body_is_list r Hl) as A. pose proof (get_body_content r) as B.
-      rewrite <- get_text_fst in A, B. destruct (get_text r). cbn [fst] in *. split; [exact A|congruence].
+      destruct (get_text_fst c r) as [E|E]; destruct (get_text c r); cbn [fst] in *; rewrite E;
+        (split; [assumption|congruence]).
     - (* md5_etag *) destruct (md5_etag_fst set_md5 r) as [h [E _]].
       pose proof (get_body_is_list r Hl) as A. pose proof (get_body_content r) as B.
       destruct (md5_etag md5b64 set_md5 r). cbn [fst] in *. subst r0. split; [exact A|].
@@ -152,12 +153,15 @@ Section Readback.
   Qed.
 
   (* ---------- text ---------- *)
-  Lemma get_text_spec r : cl_inv r -> snd (get_text r) = decode (body_encoding (r_headers r)) (content r).
+  Lemma get_text_spec r e : cl_inv r -> text_encoding c (r_headers r) = Some e ->
+    snd (get_text c r) = decode e (content r).
   Proof.
-    intros Hi. unfold get_text, body_encoding. pose proof (get_body_ok r Hi) as E.
-    destruct (get_body r) as [r1 [b|e]]; cbn [snd] in *; [|discriminate]. injection E as ->.
-    destruct (charset_of (r_headers r)) as [[|x cs]|]; reflexivity.
+    intros Hi He. unfold get_text. rewrite He. pose proof (get_body_ok r Hi) as E.
+    destruct (get_body r) as [r1 [b|x]]; cbn [snd] in *; [|discriminate]. injection E as ->. reflexivity.
   Qed.
+
+  Lemma text_encoding_hlast h h' : hlast K_CT h' = hlast K_CT h -> text_encoding c h' = text_encoding c h.
+  Proof. unfold text_encoding, charset_of. intros ->. reflexivity. Qed.
 
   Lemma charset_of_hlast h h' : hlast K_CT h' = hlast K_CT h -> charset_of h' = charset_of h.
   Proof. unfold charset_of. intros ->. reflexivity. Qed.
@@ -171,7 +175,8 @@ Section Readback.
     { apply step_keeps_body; [destruct o; try contradiction; exact I|exact Hh]. }
     destruct Hh as [Hi _]. rewrite <- Ht. unfold step. destruct o; try contradiction.
     - pose proof (get_body_hlast K_CT r K_CT_ne) as A. destruct (get_body r). exact A.
-    - pose proof (get_body_hlast K_CT r K_CT_ne) as A. rewrite <- get_text_fst in A. destruct (get_text r). exact A.
+    - pose proof (get_body_hlast K_CT r K_CT_ne) as A.
+      destruct (get_text_fst c r) as [E|E]; destruct (get_text c r); cbn [fst] in *; rewrite E; [exact A|reflexivity].
     - destruct (md5_etag_fst set_md5 r) as [h [E P]]. pose proof (get_body_hlast K_CT r K_CT_ne) as A.
       destruct (md5_etag md5b64 set_md5 r). cbn [fst] in *. subst r0. cbn [r_headers with_headers]. congruence.
     - destruct (copy_spec c r Hi) as [_ [_ [_ H2]]].
@@ -190,10 +195,10 @@ Section Readback.
   (* .text reads back the text last written, whatever operations that keep body and Content-Type
      came in between; the charset is whatever the Content-Type said when the text was written *)
   Theorem readback_text t r r0 ops :
-    set_text t r = (r0, None) -> Forall keeps_text ops ->
-    snd (get_text (runops ops r0)) = Ok t.
+    set_text c t r = (r0, None) -> Forall keeps_text ops ->
+    snd (get_text c (runops ops r0)) = Ok t.
   Proof.
-    intros Hs Hops. destruct (set_text_cases t r) as [[x E]|[b [E Henc]]]; rewrite E in Hs; [discriminate|].
+    intros Hs Hops. destruct (set_text_cases c t r) as [[x E]|[b [e [E [He Henc]]]]]; rewrite E in Hs; [discriminate|].
     injection Hs as <-.
     assert (H0 : holds_text (hlast K_CT (r_headers r)) b (set_body b r)).
     { split; [apply holds_set_body|]. apply set_body_hlast; discriminate. }
@@ -203,8 +208,8 @@ Section Readback.
       inversion Hf as [|? ? Ho Hf']; subst. unfold run_ops. cbn [fold_left]. apply IH; [exact Hf'|].
       apply step_keeps_text; assumption. }
     destruct (G ops _ Hops H0) as [[Hi [_ Hc]] Ht].
-    rewrite (get_text_spec _ Hi), Hc. unfold body_encoding in *.
-    rewrite (charset_of_hlast (r_headers r) _ Ht). apply decode_encode. exact Henc.
+    rewrite (get_text_spec _ e Hi), Hc; [apply decode_encode; exact Henc|].
+    rewrite (text_encoding_hlast (r_headers r) _ Ht). exact He.
   Qed.
 End Readback.
 
